@@ -26,8 +26,8 @@ def big_streams(ctx, first_sid):
 
 def run(ctx):
     rnd = random.Random(ctx.seed)
-    max_len = 9 if ctx.quick else 13
-    nstreams = 28 if ctx.quick else 60
+    max_len = 9 if ctx.quick else 12
+    nstreams = 28 if ctx.quick else 40
     with tlc.Scratch('c05') as sc:
         cases = P.generate(ctx, sc, GEN, invariants=['TypeOK', 'AllFormsDecode', 'OneTLV'])
         streams = SP.pick_streams(cases, max_len, nstreams, ctx.seed, min_items=1, max_items=3)
